@@ -389,6 +389,12 @@ class NetworkClient(KGLambda):
                     except Exception as e:
                         logging.warning(f"error while running on_close handler: {e}")
         logging.info(f"Stopping client: {str(self.conn_provider)}")
+        # Nobody reads this connection any more: close it, so that the peer's own pending calls fail
+        # instead of waiting for answers that cannot come, and so that is_open() tells the truth.
+        try:
+            await self.conn_provider.close()
+        except Exception as e:
+            logging.warning(f"error while closing connection: {e}")
         self._run_exit_event.set()
 
     async def _listen(self):
